@@ -374,6 +374,31 @@ def check(run):
                               "cfg": cfg, "plan": plan, "adocs": adocs})
         finally:
             w.close()
+    # the multi-process writer merging the older segments into its own (optimize) next to the sub-writers' ones,
+    # nothing deleted: every term's statistics (incl. the shortest and longest field among its documents) are asserted
+    for mi in range(2 if quick else 10):
+        keys = ["m%d" % i for i in range(rng.randrange(7, 12))]
+        adocs = dict((k, cworld.rand_adoc(rng, k)) for k in keys)
+        cut = rng.randrange(2, len(keys) - 3)
+        plan = [("commit", keys[:cut], {"merge": False}), ("commit", keys[cut:], {"optimize": True})]
+        cfg = {"storage": "file", "compound": mi % 2 == 0, "frontend": "mp", "procs": rng.choice([2, 3]),
+               "batchsize": rng.choice([1, 2]), "multisegment": False, "scenario": "mp writer optimising"}
+        w = cworld.CWorld(cfg, variant=mi)
+        try:
+            try:
+                w.run(adocs, plan)
+                with w.reader() as rd:
+                    idx = cworld.abstract_index(rd, adocs)
+                    obs = cworld.dump(rd, idx, w.schema, rng=rng, maxterms=10 if quick else 25, plan=plan)
+                    run.count(len(obs))
+                cases.append({"idx": idx, "obs": obs, "cfg": cfg, "plan": plan, "adocs": adocs, "variant": mi})
+            except Exception as ex:
+                cases.append({"idx": {"docs": []}, "obs": [{"kind": "error", "path": "building the index",
+                                                            "err": type(ex).__name__, "msg": str(ex)[:160],
+                                                            "where": content.where(ex)}],
+                              "cfg": cfg, "plan": plan, "adocs": adocs})
+        finally:
+            w.close()
     cases += neighbours(run, rng, 4 if quick else 24)
     rejects = content.judge(run, cases)
     content.report(run, "c18", cases, rejects)
